@@ -39,6 +39,10 @@ CHECKS = {
    text="(a) Every C01 query shape plus literals, predicates, symbolic functions, a rule tree and pattern matches is built with harness monitors armed (one-shot generator domains logging every element handed out, objects logging attribute reads / calls / truth tests): the log must be empty when construction returns. (b) With symbolic data and a symbolic number k of results pulled, the real engine's generators are stepped k times; per path the solver-explored data decides where the k-th result lies, and the check asserts that the k results are a prefix of a fresh identical query's results, that the outermost lazy domain was advanced exactly to the element producing the k-th result (no read-ahead), that nothing is consumed before the first next(), and the same for a second evaluation started after abandoning the first.",
    note="<= 3 objects per domain (quick); strict no-read-ahead only for the outermost domain of left-to-right nested-loop shapes; inner domains only 'nothing before the first next()'. Trusted: z3, symx proxies, the monitors.",
    technique=SYMX),
+ "C03": dict(category="model_checking", design="DESIGN.md 4 C03",
+   text="Nine scenario families (one query twice, two-variable query, two queries sharing a variable / a sub-expression, exists, for_all, the() then an(), rule query, rule query with refinement) are run under three modes: sequential, one evaluation nested in every step of another, and a symbolic schedule (bounded symbolic choices among start(q_i) / next(it_j) / abandon(it_j), <= 3 live iterators) - the schedule and the attribute values are symbolic variables, every feasible combination within the bound is explored on the real engine, and every evaluation's output must be a prefix of (and, when exhausted, equal to) what a fresh structurally identical query produces alone.",
+   note="Schedules of <= 4 (quick) / <= 7 (thorough) steps, 2 objects per domain; single-threaded interleavings only (as the property states). Reference = the engine run alone (absolute correctness is C01/C02/C08). One known finding (nested re-evaluation of a rule query with a refinement). Trusted: z3, symx proxies.",
+   technique=SYMX + "; schedules are bounded symbolic choice variables explored exhaustively"),
 }
 NA_REASON = "check not built yet (build in progress, see DESIGN.md section 9 for the build order)"
 NA = {}
